@@ -33,8 +33,9 @@ CLAIMED = {
          "Tie: exhaustive correspondence of sin/cos on [-2pi-2, 2pi+2] raw (3 build legs) + random/boundary up to 2^62.", "reflective kernel enumeration + Mathlib enclosures + omega; exhaustive correspondence"),
  "C19": ("proof", "Against the tables REGENERATED from the current *_table.h: C19_sin_tab/C19_cos_tab (all 722 entries within 2 ulp of Real.sin/cos(i deg)), C19_tan_tab (255 entries within 2 ulp*(1+tan^2)), "
          "C19_sqrt_tab (256 entries within 1 of 65536*sqrt(i/256+31/2^18)) by kernel evaluation (decide +kernel) of Nat-only Taylor enclosure checkers with proved soundness; "
-         "C19_sin_aprox / C19_cos_aprox for EVERY int32 d (index in bounds, result = entry of d mod 360, within 2 ulp of sin/cos(d deg)); sqrt_aprox edge cases. "
-         "PARTIAL: the 2% bound of sqrt_aprox on [1,2^37) and the 1.25 bound of atan_index_aprox are stated (C19_*_full) and carried by exhaustive/cell-boundary correspondence + oracle only.", "kernel evaluation over regenerated tables + Mathlib enclosures; omega for index reduction; correspondence"),
+         "C19_sin_aprox / C19_cos_aprox for EVERY int32 d (index in bounds, result = entry of d mod 360, within 2 ulp of sin/cos(d deg)); "
+         "C19_sqrt_aprox: relative error <= 2% for EVERY raw x in [1,2^37) (closed form of the cell selection from the bit length, kernel check of all 1567 cells at both cell ends), 0 at 0, NaN below 0; "
+         "C19_atan_index: within 1.25 of atan(x)*128/pi for EVERY raw x (binary-search invariant of std::lower_bound valid despite the out-of-order sentinel entry 128, closed form, kernel check of arctan of all 254 entries against their angles, monotone arctan).", "kernel evaluation over regenerated tables + Mathlib enclosures; omega for index reduction; correspondence"),
  "C10": ("proof", "C10_acc: for EVERY raw v in [-pi, pi] (411 775 values) except the library's pole, the result is within 2.5 ulp*(1+tan^2 x) of Real.tan x and cos x != 0 - analytic sign/range "
          "normalisation (omega), kernel-checked enumeration (204 decide+kernel chunks) of the normalised kernel at all 205 887 arguments with the division-free criterion |T cos x - sin x| |cos x| <= 2.5 ulp against "
          "Taylor enclosures of Real.sin/Real.cos at the true angle (second quadrant through pi - x with a 40-bit enclosure of pi), edge case |x| = phi analytic. "
